@@ -226,8 +226,8 @@ def shape_of(case, field=None):
 
 @hyp.composite
 def clean_cases(d):
-    """unsigned-only programs without negative literals or subtraction: nothing of the recorded mixed-sign finding can
-    apply, so every starved value is a violation.  Comparisons are written in both orientations, with constant
+    """unsigned-only programs (first written to stay clear of the mixed-sign finding, since repaired; constant
+    arithmetic that wraps at the comparison's width is generated on purpose): every starved value is a violation.  Comparisons are written in both orientations, with constant
     expressions (sized literals, non-random field + k) on either side."""
     n = d.randint(1, 3)
     fs = []
@@ -251,6 +251,18 @@ def clean_cases(d):
 
         def const():
             r = d.randint(0, 99)
+            if nr and r < 15:
+                # arithmetic over constants that wraps at the width of the comparison for the solver (3 - 5, 5 + 6 on
+                # 3-bit fields, a shift): the inferred range has to use the wrapped value, or none
+                g, g2 = d.choice(nr), d.choice(nr)
+                k_ = d.randint(0, 3)
+                if k_ == 0:
+                    return ["bin", "-", ["f", g["name"]], ["f", g2["name"]]]
+                if k_ == 1:
+                    return ["bin", "+", ["f", g["name"]], ["f", g2["name"]]]
+                if k_ == 2:
+                    return ["bin", "-", ["f", g["name"]], ["ulit", d.randint(0, 7), 3]]
+                return ["bin", "<<", ["f", g["name"]], ["lit", d.randint(0, 3)]]
             if nr and r < 40:
                 g = d.choice(nr)
                 return ["bin", "+", ["f", g["name"]], ["lit", d.randint(0, 2)]] if d.chance(60) else ["f", g["name"]]
@@ -344,6 +356,38 @@ def clean_cases(d):
     return {"mode": "enum", "prog": prog, "inline": None, "clean": True,
             "calls": calls,
             "sel": [d.randint(0, 1 << 16) for _ in range(8)], "pseed": d.seed()}
+
+
+@hyp.composite
+def signed_cases(d):
+    """signed fields whose domain is a list of single values and short ranges on both sides of zero, optionally met by a
+    bound: every listed value that the other statements allow has to come out (coupon check over the tiny solution set)"""
+    n = d.randint(1, 2)
+    fs = []
+    for i in range(n):
+        f = {"name": "f%d" % i, "kind": "int", "w": d.choice([3, 4, 4, 5]), "signed": True, "rand": True, "init": 0}
+        fs.append(f)
+    stmts = []
+    for f in fs:
+        lo, hi = sem.type_range(f)
+        items = []
+        for _ in range(d.randint(2, 4)):
+            a = d.randint(lo, hi)
+            if d.chance(70):
+                items.append(["lit", a])
+            else:
+                items.append(["rng", ["lit", a], ["lit", min(hi, a + d.randint(1, 2))]])
+        stmts.append(["expr", ["in", ["f", f["name"]], items]])
+    if d.chance(50):
+        f = d.choice(fs)
+        lo, hi = sem.type_range(f)
+        stmts.append(["expr", ["bin", d.choice(["<", "<=", ">", ">=", "!="]), ["f", f["name"]], ["lit", d.randint(lo, hi)]]])
+    if n > 1 and d.chance(40):
+        stmts.append(["expr", ["bin", d.choice(["<", "<=", "!="]), ["f", "f0"], ["f", "f1"]]])
+    prog = {"enums": {}, "classes": [{"name": "T", "fields": fs, "blocks": [{"name": "c0", "stmts": stmts}]}]}
+    calls = [{"kind": "randomize", "seed": d.seed()} for _ in range(d.randint(1, 2))]
+    return {"mode": "enum", "prog": prog, "inline": None, "signed_lists": True, "calls": calls,
+            "sel": [2 * d.randint(0, 1 << 15)] + [d.randint(0, 1 << 16) for _ in range(7)], "pseed": d.seed()}
 
 
 def V(kind, detail, case, extra=None):
@@ -440,12 +484,17 @@ def run_case(case):
         return [], info
     cap, sols, stmts = last
     has_soft = '"soft"' in cjson(class_stmts) or '"soft"' in cjson(inline)     # softs legitimately keep solutions away
-    if (case["sel"][0] % 2 == 0 and 2 <= len(sols) <= 24 and len(rf) <= 3 and not has_soft
+    sel0 = ([x for x in (case.get("sel") or []) if isinstance(x, int)] or [1])[0]     # (the reducer may have emptied the list)
+    if (sel0 % 2 == 0 and 2 <= len(sols) <= 24 and len(rf) <= 3 and not has_soft
             and not (case.get("inline") and len(stmts) > len(class_stmts))) \
-            and all((not f["signed"]) and f["kind"] != "enum" for f in rf):
+            and all(f["kind"] != "enum" for f in rf):
         R = 1
         for f in rf:
-            rg = cap["ranges"].get(f["name"]) or []
+            rg = cap["ranges"].get(f["name"])
+            if not rg:
+                # no inferred range captured for this field (e.g. a list element): it is steered over its whole type
+                R *= len(sem.domain(f))
+                continue
             k = len(rg)
             mx = max([abs(b - a) + 1 for a, b in rg] or [1])
             R *= max(1, k * mx)
@@ -493,11 +542,13 @@ def body(case, acc):
 
 def shards(tier):
     per = 220 if tier == "quick" else 6000
-    return [{"i": i, "n": per} for i in range(12)] + [{"kind": "clean", "i": i, "n": per} for i in range(4)]
+    return [{"i": i, "n": per} for i in range(12)] + [{"kind": "clean", "i": i, "n": per} for i in range(4)] + \
+        [{"kind": "signed", "i": i, "n": 100 if tier == "quick" else 3000} for i in range(2)]
 
 
 def run_shard(spec, seed, tier, acc):
-    hyp.drive(clean_cases() if spec.get("kind") == "clean" else cases(), body, seed, spec["n"], acc)
+    strat = {"clean": clean_cases, "signed": signed_cases}.get(spec.get("kind"), cases)()
+    hyp.drive(strat, body, seed, spec["n"], acc)
 
 
 def replay(case):
